@@ -569,6 +569,8 @@ func c10Configs(thorough bool) [][]*authHostCfg {
 	// tokens of different lifetimes in one cache: a long-lived one issued before a short-lived one
 	add(func(c *authHostCfg) { c.LifetimePattern = []int{0, 1} })
 	add(func(c *authHostCfg) { c.LifetimePattern = []int{3, 1, 2}; c.Creds = "refresh" })
+	add(func(c *authHostCfg) { c.TokenMode = "varying-fields"; c.Lifetime = 2 })
+	add(func(c *authHostCfg) { c.TokenMode = "varying-fields"; c.Lifetime = 2; c.Creds = "refresh" })
 	add(func(c *authHostCfg) { c.TokenMode = "ceiling" })
 	add(func(c *authHostCfg) { c.TokenMode, c.Challenge = "ceiling", "wider" })
 	// two hosts
@@ -579,6 +581,16 @@ func c10Configs(thorough bool) [][]*authHostCfg {
 	a2.Creds = "basic"
 	a2.Lifetime = 2
 	out = append(out, []*authHostCfg{&a2, &b})
+	// two registries whose host strings differ only in their last characters (same machine, two ports):
+	// whatever the transport keys its per-registry state by must keep them apart
+	p1, p2 := base, base
+	p1.Host, p1.Creds, p1.Lifetime = "a.example:4443", "refresh", 60
+	p2.Host, p2.Creds, p2.Lifetime = "a.example:3344", "static", 60
+	out = append(out, []*authHostCfg{&p1, &p2})
+	p3, p4 := base, base
+	p3.Host, p3.Creds, p3.Lifetime = "a.example:443", "refresh", 60
+	p4.Host, p4.Creds, p4.Lifetime = "a.example", "basic", 60
+	out = append(out, []*authHostCfg{&p3, &p4})
 	return out
 }
 
